@@ -1,7 +1,8 @@
 (* C01 - Incremental builds produce exactly what a clean build produces.
-   Statement, two refutations (directory outputs: the path hash of a directory ignores entry names, and
+   Statement, three refutations (directory outputs: the path hash of a directory ignores entry names, and
    moveOutput keeps the old output when the hashes are equal; output_dirs: a target rebuilt after the post-build
-   check keeps the outputs of an old metadata file and fails), and the partial theorems. *)
+   check keeps the outputs of an old metadata file and fails; tools: the source hash carries no path for a tool output), and
+   the partial theorems - tools are inside them up to the executable classifier tool_rename_free. *)
 (* Proof.Engine_Gen: the record layout / needsBuilding order / cache-key parts regenerated from the source *)
 From PlzV Require Import Proof.Engine_Gen.
 From PlzV Require Import Base.Harness Model.Engine Model.C01 Proof.Engine Proof.C03 Proof.C01.
